@@ -11,9 +11,9 @@ from . import common
 ID = "C04"
 NEEDS_MODEL = True
 LEVEL = "exploration"
-N = {"quick": 960, "thorough": 30000}
+N = {"quick": 1920, "thorough": 40000}
 STRATA = ["S1", "S1", "S2", "S2", "S3", "S1", "S2", "S3", "S4", "S5", "S6", "S8", "S6", "S8", "S9",
-          "S9", "S10", "S10", "S11", "S11"]
+          "S9", "S9", "S8", "S10", "S10", "S11", "S11"]
 
 
 def _solve_assignment(e, spec, env):
